@@ -376,6 +376,17 @@ def check_getter_sources(ctx):
     for label, mo in (("orbitals with occupations [1, 1 | 1]", orbitals([1.0, 1.0, 1.0])), ("orbitals without occupations", orbitals(None)), ("no orbitals", None)):
         for name, stored in (("nelec", 11.0), ("spinpol", 7.0)):
             rows.append((f"{name} with {label}", name, lambda mo=mo: obj(mo=mo, _nelec=11.0, _spinpol=7.0), (lambda ev, mo=mo, name=name: num(ev.get(mo, name))) if mo is not None else (lambda ev, stored=stored: stored), "R2"))
+    # generalized (two-component) orbitals are orbitals too: the getters defer to them (whatever they answer), and
+    # assigning nelec / spinpol is refused as with any orbitals
+    gen = orbitals([1.0, 1.0, 1.0])
+    gen.fields["kind"] = "generalized"
+    for name, stored in (("nelec", 11.0), ("spinpol", 7.0)):
+        def want_gen(ev, name=name, gen=gen):
+            try:
+                return num(ev.get(gen, name))
+            except Raised as exc:
+                return ("raises", exc.args[0])
+        rows.append((f"{name} with generalized orbitals", name, lambda gen=gen: obj(mo=gen, _nelec=11.0, _spinpol=7.0), want_gen, "R2"))
     z = np.array([8.0, 1.0])
     rows += [
         ("charge with core charges [8, 1] and 6 stored electrons", "charge", lambda: obj(_atcorenums=z.copy(), _nelec=6.0), lambda ev: 3.0, "R3"),
@@ -390,9 +401,18 @@ def check_getter_sources(ctx):
         if g is None:
             raise AnalysisError(f"IOData.{name} getter not found")
         try:
-            ev = AccessorEval(prog, ci, limit=4000)
-            got = num(ev.get(mk(), name))
             want = want_f(AccessorEval(prog, mo_cls, limit=4000))
+            ev = AccessorEval(prog, ci, limit=4000)
+            try:
+                got = num(ev.get(mk(), name))
+            except Raised as exc:
+                got = ("raises", exc.args[0])
+            if isinstance(got, tuple) or isinstance(want, tuple):
+                if got == want:
+                    done[rid] += 1
+                else:
+                    ctx.violate(rid, f"IOData.{label}: the getter gives {got!r}; the orbitals themselves answer {want!r} (with orbitals present the stored value is never used)", g, g.node, construct=f"getter {name}: {label}"[:150])
+                continue
         except Raised as exc:
             ctx.violate(rid, f"IOData.{label}: the getter raises {exc.args[0]}", g, g.node, construct=f"getter {name}: raises")
             continue
@@ -404,6 +424,21 @@ def check_getter_sources(ctx):
         else:
             src = "the orbitals" if "orbitals" in label and "no orbitals" not in label and name != "charge" else ("the stored value" if name != "charge" else "sum(core charges) - nelec when both are known, else the stored charge")
             ctx.violate(rid, f"IOData.{label}: the getter gives {got!r}, expected {want!r} ({src})", g, g.node, construct=f"getter {name}: {label}"[:150])
+    for name in ("nelec", "spinpol"):
+        st_ = ci.setters.get(name)
+        if st_ is None:
+            continue
+        for label, mo_ in (("generalized orbitals", gen), ("orbitals with occupations", orbitals([1.0, 1.0, 1.0]))):
+            try:
+                AccessorEval(prog, ci, limit=4000).set(obj(mo=mo_), name, 1.0)
+                ctx.violate("R2", f"IOData.{name} can be assigned although {label} are present: the stored value and the orbitals then disagree", st_, st_.node, construct=f"setter {name}: accepted with {label}")
+            except Raised as exc:
+                if exc.args[0] == "TypeError":
+                    done["R2"] += 1
+                else:
+                    ctx.violate("R2", f"IOData.{name} = ... with {label} raises {exc.args[0]}, documented TypeError", st_, st_.node, construct=f"setter {name}: {exc.args[0]} with {label}")
+            except NotSymbolic as exc:
+                raise AnalysisError(f"IOData.{name} setter is outside the evaluation whitelist: {exc}") from exc
     for rid, k in done.items():
         if k:
             ctx.ok(rid, f"IOData getters evaluated on {k} model objects with pairwise different sources: each reads the documented source", f"{ci.module.relpath}:{ci.node.lineno}")
